@@ -149,6 +149,12 @@ def run(ctx):
             second = rng.choice([0x008000 + n1, 0x008000, 0x008000 + n1 + 1, first + 2])
             n2 = rng.randrange(1, 6)
             src = f"*=0x{first:06x}\n.db " + ", ".join(str(rng.randrange(256)) for _ in range(n1)) + f"\n*=0x{second:06x}\n.db " + ", ".join(str(rng.randrange(256)) for _ in range(n2)) + "\n"
+            if i % 4 == 1:
+                # the same bytes written again at the same place after another block overlapped them
+                blk = ", ".join(str(rng.randrange(256)) for _ in range(4))
+                src = f"*=0x008000\n.db {blk}\n*=0x008001\n.db 0xAA, 0xBB\n*=0x008000\n.db {blk}\n"
+            if i % 4 == 3:
+                src = "*=0x008000\nzz_only_definitions = 5\n"   # a program that emits nothing
             base = impl.assemble(src, "low_rom", cwd=run_.tmp)
             if base["status"] != "ok":
                 continue
@@ -162,7 +168,7 @@ def run(ctx):
                     ips = None
                 s3.cases += 1
                 s3.nontrivial.add((n1, first, second - 0x008000, e))
-                extent = max(img) + 1
+                extent = max(img) + 1 if img else 0
                 if data is None or len(data) != extent or any(data[k] != img.get(k, 0) for k in range(extent)):
                     s3.violate({"src": src, "entry": e}, "flat image of the in-memory blocks", None if data is None else data[:16].hex(), "SFC output does not hold the in-memory bytes at the in-memory offsets")
                 if ips is not None:
